@@ -1,7 +1,9 @@
 //! Project-level checks (C08, C09, C11, C13-C16, C24-C27) over G-PROJECT.
 mod c08;
+mod c13;
 mod c14;
 mod c16;
+mod c24;
 use gen_project::cases;
 mod probe;
 
@@ -11,7 +13,9 @@ fn main() {
         "probe" => probe::run(&args),
         "shrink" => probe::shrink(&args),
         "C08" => c08::run(&args),
+        "C13" => c13::run(&args),
         "C14" => c14::run(&args),
+        "C24" => c24::run(&args),
         "C16" => c16::run(&args),
         other => vcore::inconclusive(&format!("proj: {other} not built yet")),
     }
